@@ -132,3 +132,18 @@ MUTANTS += [
     dict(id='c05-symlink-split-first-bar', props=['C05'], file='lib/lha_file_header.c',
          old="\tp = strchr(fullpath, '|');", new="\tp = strrchr(fullpath, '|');"),
 ]
+MUTANTS += [
+    # ---- C11 ----
+    dict(id='c11-dotdot-at-start-kept', props=['C11'], file='lib/lha_file_header.c',
+         old='\t\t\t\tif (currpath == filename) {\n\t\t\t\t\tw = filename;\n\t\t\t\t} else {', new='\t\t\t\tif (currpath == filename) {\n\t\t\t\t\tcurrpath = w;\n\t\t\t\t} else {'),
+    dict(id='c11-ext-filename-slash-kept', props=['C11'], file='lib/ext_header.c',
+         old="\t\tif (new_filename[i] == '/') {\n\t\t\tnew_filename[i] = '_';\n\t\t}", new="\t\tif (new_filename[i] == '/' && i == 0) {\n\t\t\tnew_filename[i] = '_';\n\t\t}"),
+    dict(id='c11-collapse-skipped-for-symlinks', props=['C11'], file='lib/lha_file_header.c',
+         old='\tif (header->path != NULL) {\n\t\tcollapse_path(header->path);\n\t}', new='\tif (header->path != NULL && header->symlink_target == NULL) {\n\t\tcollapse_path(header->path);\n\t}'),
+    dict(id='c11-collapse-single-dot-kept', props=['C11'], file='lib/lha_file_header.c',
+         old="\t\t\t || (currpath_len == 1 && currpath[0] == '.')) {", new="\t\t\t || (currpath_len == 1 && currpath[0] == '.' && currpath != filename)) {"),
+    dict(id='c11-dotdot-walkback-too-far', props=['C05'], file='lib/lha_file_header.c',
+         old="\t\t\t\t\twhile (w > filename) {\n\t\t\t\t\t\tif (*(w - 1) == '/') {", new="\t\t\t\t\twhile (w > filename + 1) {\n\t\t\t\t\t\tif (*(w - 1) == '/') {"),
+    dict(id='c11-symlink-resplit-dropped', props=['C11'], file='lib/lha_file_header.c',
+         old='\treturn split_header_filename(header);\n}\n\n// Decode the path field in the header.', new='\treturn 1;\n}\n\n// Decode the path field in the header.'),
+]
